@@ -600,7 +600,14 @@ def spec_call(eng, st, e, old):
             sub = st.copy()
             for x, v in zip(names, vs):
                 sub.env[x] = Val(TInt, v)
-            body = ops.truthy(eng.ev(lam.body, sub, True, old))
+            n_before = len(eng.bound_names)
+            eng.bound_names.extend(v.decl().name() for v in vs)
+            try:
+                body = ops.truthy(eng.ev(lam.body, sub, True, old))
+            finally:
+                del eng.bound_names[n_before:]
+            for extra in sub.pc[len(st.pc):]:
+                st.assume(extra)
             return Val(TBool, z3.ForAll(vs, body) if n == 'forall_int' else z3.Exists(vs, body))
         if n in eng.spec_funcs:
             args = [lift(eng.ev(a, st, True, old)) for a in e.args]
@@ -642,12 +649,17 @@ def quantifier(eng, st, gen, kind, old, spec=True):
         seq = as_sequence(eng, sub, it, gen)
         i = z3.Int(fresh_name('q'))
         bound.append(i)
+        eng.bound_names.append(i.decl().name())
         eng.assign(comp.target, seq.getter(i), sub, gen)
         conds = [ops.truthy(eng.ev(c, sub, spec, old)) for c in comp.ifs]
         rng = z3.And(0 <= i, i < getattr(seq, 'raw_len', seq.length), *conds)
         body = expand(k + 1)
         return z3.Implies(rng, body) if kind == 'all' else z3.And(rng, body)
-    body = expand(0)
+    n_before = len(eng.bound_names)
+    try:
+        body = expand(0)
+    finally:
+        del eng.bound_names[n_before:]
     if not bound:
         return Val(TBool, body)
     return Val(TBool, z3.ForAll(bound, body) if kind == 'all' else z3.Exists(bound, body))
